@@ -15,17 +15,23 @@ def custom_table(rng, n=None):
     # radar-style tables need not start at Mach 0
     m = rng.choice([0.0, 0.0, round(rng.uniform(0.2, 0.9), 3)])
     machs = [m]
-    for _ in range(n - 1):
-        m += rng.choice([rng.uniform(0.01, 0.05), rng.uniform(0.05, 0.3), rng.uniform(0.3, 0.8)])
+    # a stretch sampled every few thousandths of Mach (kept away from the table's end: a parabola through three such nodes,
+    # extrapolated whole Mach numbers beyond the table, amplifies the last bits of its coefficients beyond any data-derived tolerance)
+    fine = rng.randrange(1, n - 9) if rng.random() < 0.2 and n >= 12 else None
+    for k in range(n - 1):
+        if fine is not None and fine <= k < fine + 6:
+            m += rng.uniform(0.002, 0.007)
+        else:
+            m += rng.choice([rng.uniform(0.01, 0.05), rng.uniform(0.05, 0.3), rng.uniform(0.3, 0.8)])
         machs.append(round(m, 5))
     cd = rng.uniform(0.15, 0.6)
     out = []
     for mach in machs:
         cd = min(1.0, max(0.05, cd + rng.uniform(-0.08, 0.08)))
         out.append([mach, round(cd, 5)])
-    if rng.random() < 0.06 and len(out) >= 4:
+    if rng.random() < 0.06 and len(out) >= 7:
         # seam rows of a table stitched from two sources: two strictly ascending Mach numbers a few ulps apart with the same Cd
-        i = rng.randrange(1, len(out) - 1)
+        i = rng.randrange(1, len(out) - 4)      # (not among the last three nodes: they carry the extrapolation beyond the table)
         m = out[i][0]
         for _ in range(rng.choice([1, 3, 40])):
             m = math.nextafter(m, math.inf)
